@@ -41,7 +41,7 @@ def one(name):
         r = subprocess.run(["git", "-C", wt, "apply", os.path.join(d, "patch.diff")], capture_output=True, text=True)
         if r.returncode:
             return name, {"apply": r.stderr.strip()[:200]}, meta
-        env = {**os.environ, "VERIF_REPO": wt}
+        env = {**os.environ, "VERIF_REPO": wt, "VERIF_EVIDENCE_DIR": "/var/tmp/verif-evidence-changed-tree"}
         if a.nproc:
             env["VERIF_NPROC"] = a.nproc
         for c in ids:
